@@ -247,3 +247,277 @@ def dependence_leaves(expr, fn_node, outside=()) -> set:
 
     visit(expr)
     return leaves
+
+
+# ---------------------------------------------------------------------- constants, setattr, generators
+def literal_resolver(p, fn):
+    """name -> the literal a module-level name is bound to, looked up where the code of `fn` and of the helpers expanded
+    into it can come from: its own module, the modules of its class's bases, else a package-wide unique definition."""
+    mods = [fn.module]
+    if fn.cls is not None:
+        mods += [c.module for c in fn.cls.mro if not isinstance(c, str) and c.module is not None and c.module is not fn.module]
+
+    def resolve(name):
+        for m in mods:
+            r = p.resolve_name(m, name)
+            if r and r[0] == "assign":
+                return r[1][1]
+        owners = [m for m in p.modules.values() if m.in_scope and name in m.assigns]
+        if len(owners) == 1:
+            return owners[0].assigns[name]
+        return None
+
+    return resolve
+
+
+def fold_const(expr, fn_node, resolve=lambda name: None, _depth=0):
+    """The constant an expression evaluates to (ast.Constant) or None: single-assignment locals, module-level literals,
+    `<dict literal>[k]` / `.get(k, d)` with a constant key, f-strings / `+` / `%`-free concatenations of constants."""
+    if _depth > 8:
+        return None
+    e = expanded(expr, fn_node)
+
+    def go(x, d):
+        if d > 8:
+            return None
+        if isinstance(x, ast.Constant):
+            return x
+        if isinstance(x, ast.Name):
+            v = resolve(x.id)
+            return go(v, d + 1) if v is not None else None
+        if isinstance(x, ast.JoinedStr):
+            parts = []
+            for v in x.values:
+                if isinstance(v, ast.FormattedValue):
+                    if v.format_spec is not None or v.conversion not in (-1, 115):
+                        return None
+                    v = go(v.value, d + 1)
+                else:
+                    v = go(v, d + 1)
+                if v is None:
+                    return None
+                parts.append(str(v.value))
+            return ast.Constant(value="".join(parts))
+        if isinstance(x, ast.BinOp) and isinstance(x.op, ast.Add):
+            a, b = go(x.left, d + 1), go(x.right, d + 1)
+            if a is not None and b is not None and isinstance(a.value, str) and isinstance(b.value, str):
+                return ast.Constant(value=a.value + b.value)
+            return None
+        table = key = default = None
+        if isinstance(x, ast.Subscript):
+            table, key = x.value, x.slice
+        elif isinstance(x, ast.Call) and isinstance(x.func, ast.Attribute) and x.func.attr == "get" and 1 <= len(x.args) <= 2 and not x.keywords:
+            table, key = x.func.value, x.args[0]
+            default = x.args[1] if len(x.args) == 2 else ast.Constant(value=None)
+        if table is not None:
+            if isinstance(table, ast.Name):
+                table = resolve(table.id)
+            k = go(key, d + 1)
+            if not isinstance(table, ast.Dict) or k is None:
+                return None
+            keys = [go(kk, d + 1) if kk is not None else None for kk in table.keys]
+            if any(kk is None for kk in keys):
+                return None
+            for kk, vv in zip(keys, table.values):
+                if kk.value == k.value and type(kk.value) is type(k.value):
+                    return go(vv, d + 1)
+            return go(default, d + 1) if default is not None else None
+        return None
+
+    return go(e, 0)
+
+
+def is_setattr(call) -> bool:
+    return isinstance(call, ast.Call) and fname(call) == "setattr" and len(call.args) == 3 and not call.keywords
+
+
+def desugar_setattr(fn_node, resolve=lambda name: None):
+    """A copy of the function where `setattr(obj, <name that folds to a constant>, v)` reads `obj.<name> = v`."""
+    node = copy.deepcopy(fn_node)
+
+    class T(ast.NodeTransformer):
+        def visit_Expr(self, s):
+            c = s.value
+            if is_setattr(c):
+                nm = fold_const(c.args[1], node, resolve)
+                if nm is not None and isinstance(nm.value, str) and nm.value.isidentifier():
+                    a = ast.Assign(targets=[ast.Attribute(value=c.args[0], attr=nm.value, ctx=ast.Store())], value=c.args[2])
+                    return ast.fix_missing_locations(ast.copy_location(a, s))
+            return s
+
+    return T().visit(node)
+
+
+def _bound(fn_node) -> set:
+    out = {a.arg for a in fn_node.args.posonlyargs + fn_node.args.args + fn_node.args.kwonlyargs}
+    for n in ast.walk(fn_node):
+        if isinstance(n, ast.Name) and isinstance(n.ctx, (ast.Store, ast.Del)):
+            out.add(n.id)
+    return out
+
+
+def _loose_jumps(stmts) -> set:
+    """'break' / 'continue' statements of a loop body that belong to that loop (not to a loop nested in the body)."""
+    out = set()
+
+    def walk(ss):
+        for s in ss:
+            if isinstance(s, ast.Break):
+                out.add("break")
+            elif isinstance(s, ast.Continue):
+                out.add("continue")
+            elif isinstance(s, (ast.For, ast.While, ast.FunctionDef, ast.AsyncFunctionDef, ast.ClassDef)):
+                continue
+            else:
+                for fld in ("body", "orelse", "finalbody"):
+                    walk(getattr(s, fld, None) or [])
+                for h in getattr(s, "handlers", None) or []:
+                    walk(h.body)
+
+    walk(stmts)
+    return out
+
+
+def _yields_in_loop_tail(gen_node) -> bool:
+    """Every `yield` statement is the last thing an iteration of its enclosing loop does (so a `continue` of the consumer,
+    which resumes the generator, is a `continue` of that loop)."""
+    ok = True
+
+    def block(stmts, tail, in_loop):
+        nonlocal ok
+        for i, s in enumerate(stmts):
+            last = tail and i == len(stmts) - 1
+            if isinstance(s, ast.Expr) and isinstance(s.value, (ast.Yield, ast.YieldFrom)):
+                if not (last and in_loop) or isinstance(s.value, ast.YieldFrom):
+                    ok = False
+            elif isinstance(s, ast.If):
+                block(s.body, last, in_loop)
+                block(s.orelse, last, in_loop)
+            elif isinstance(s, (ast.For, ast.While)):
+                block(s.body, True, True)
+                block(s.orelse, False, in_loop)
+            else:
+                for fld in ("body", "orelse", "finalbody"):
+                    block(getattr(s, fld, None) or [], False, in_loop)
+                for h in getattr(s, "handlers", None) or []:
+                    block(h.body, False, in_loop)
+
+    block(gen_node.body, True, False)
+    return ok
+
+
+def unfold_generator_loops(fn, view, project, depth=2):
+    """A copy of the (normalised) function `fn` where `for t in <generator function>(args): BODY` reads as the generator's
+    own body with the parameters bound and every `yield e` replaced by `t = e; BODY` (`yield from X` by `for t in X: BODY`):
+    the same statements run in the same order.  Left alone when that is not a faithful reading: `break` in BODY, `continue`
+    in BODY unless every yield ends an iteration of its loop, `return` / yield-expressions in the generator, *args / **kwargs,
+    a generator overridden in a subclass.  `view(FuncInfo)` gives the normalised generator."""
+    node = copy.deepcopy(fn.node)
+    counter = [0]
+
+    def callee_of(call):
+        f = call.func
+        if any(isinstance(a, ast.Starred) for a in call.args) or any(k.arg is None for k in call.keywords):
+            return None, None
+        target, recv = None, None
+        if isinstance(f, ast.Attribute) and isinstance(f.value, ast.Name) and fn.cls is not None and f.value.id in ("self", "cls"):
+            m = fn.cls.lookup(f.attr)
+            if m and m[1] == "method":
+                target, recv = m[2], f.value
+                if any(sub.own(f.attr) is not None for sub in project.subclasses(fn.cls, strict=True)):
+                    return None, None
+        elif isinstance(f, ast.Name):
+            r = project.resolve_name(fn.module, f.id)
+            if r and r[0] == "func":
+                target = r[1]
+        if target is None or target.node is fn.node:
+            return None, None
+        a = target.node.args
+        if a.vararg or a.kwarg or any(unparse(d) not in ("staticmethod", "classmethod") for d in target.node.decorator_list):
+            return None, None
+        if not any(isinstance(x, (ast.Yield, ast.YieldFrom)) for x in ast.walk(target.node)):
+            return None, None
+        return target, (recv if target.kind in ("method", "classmethod") else None)
+
+    def unfold(loop, level):
+        if level >= depth or loop.orelse or not isinstance(loop.target, ast.Name) or not isinstance(loop.iter, ast.Call):
+            return None
+        callee, recv = callee_of(loop.iter)
+        if callee is None:
+            return None
+        gen = copy.deepcopy(view(callee).node)
+        body = [s for s in gen.body if not (isinstance(s, ast.Expr) and isinstance(s.value, ast.Constant) and isinstance(s.value.value, str))]
+        stmts_yield = [s for s in ast.walk(gen) if isinstance(s, ast.Expr) and isinstance(s.value, (ast.Yield, ast.YieldFrom))]
+        all_yield = [x for x in ast.walk(gen) if isinstance(x, (ast.Yield, ast.YieldFrom))]
+        if len(stmts_yield) != len(all_yield) or any(isinstance(x, (ast.Return, ast.FunctionDef, ast.Lambda, ast.Global, ast.Nonlocal)) for x in ast.walk(gen) if x is not gen):
+            return None
+        jumps = _loose_jumps(loop.body)
+        if "break" in jumps or ("continue" in jumps and not _yields_in_loop_tail(gen)):
+            return None
+        # bind the parameters, keep the generator's own names apart from the caller's
+        a = gen.args
+        params = [x.arg for x in a.posonlyargs + a.args]
+        defaults = dict(zip(params[len(params) - len(a.defaults):], a.defaults))
+        for k, d in zip(a.kwonlyargs, a.kw_defaults):
+            params.append(k.arg)
+            if d is not None:
+                defaults[k.arg] = d
+        args = ([recv] if recv is not None else []) + list(loop.iter.args)
+        binding = dict(zip(params, args))
+        binding.update({k.arg: k.value for k in loop.iter.keywords})
+        for prm in params:
+            if prm not in binding:
+                if prm not in defaults:
+                    return None
+                binding[prm] = defaults[prm]
+        counter[0] += 1
+        t = loop.target.id
+        ren = {}
+        for nm in _bound(gen):
+            if nm in binding and isinstance(binding[nm], ast.Name) and binding[nm].id == nm:
+                continue
+            ren[nm] = f"{nm}__g{counter[0]}"
+        # a local of the generator that is what it yields IS the consumer's loop variable
+        yielded = {s.value.value.id for s in stmts_yield if isinstance(s.value, ast.Yield) and isinstance(s.value.value, ast.Name)}
+        for nm in yielded:
+            if nm in ren and nm not in params:
+                ren[nm] = t
+        body = [rename(s, ren) for s in body]
+        pre = [ast.Assign(targets=[ast.Name(id=ren[prm], ctx=ast.Store())], value=copy.deepcopy(binding[prm])) for prm in params if prm in ren]
+
+        class Y(ast.NodeTransformer):
+            def visit_Expr(self, s):
+                if isinstance(s.value, ast.Yield):
+                    v = s.value.value if s.value.value is not None else ast.Constant(value=None)
+                    bind = [] if isinstance(v, ast.Name) and v.id == t else [ast.Assign(targets=[ast.Name(id=t, ctx=ast.Store())], value=v)]
+                    return bind + copy.deepcopy(loop.body)
+                if isinstance(s.value, ast.YieldFrom):
+                    return ast.For(target=ast.Name(id=t, ctx=ast.Store()), iter=s.value.value, body=copy.deepcopy(loop.body), orelse=[])
+                return s
+
+        out = []
+        for s in pre + body:
+            r = Y().visit(s)
+            out += r if isinstance(r, list) else [r]
+        for s in out:
+            for x in ast.walk(s):
+                if isinstance(x, (ast.expr, ast.stmt)):
+                    ast.copy_location(x, loop)
+        return out
+
+    def rewrite(stmts, level):
+        out = []
+        for s in stmts:
+            for fld in ("body", "orelse", "finalbody"):
+                blk = getattr(s, fld, None)
+                if isinstance(blk, list) and blk and isinstance(blk[0], ast.stmt):
+                    setattr(s, fld, rewrite(blk, level))
+            for h in getattr(s, "handlers", None) or []:
+                h.body = rewrite(h.body, level)
+            new = unfold(s, level) if isinstance(s, ast.For) else None
+            out += rewrite(new, level + 1) if new is not None else [s]
+        return out
+
+    node.body = rewrite(node.body, 0)
+    ast.fix_missing_locations(node)
+    return node
